@@ -24,6 +24,8 @@ Sigs == {"ok", "bad0", "bad9"}
 Idents == {"none", "empty", "one", "max255", "over256"}
 IdentOK(i) == i # "over256"
 Firsts == {"ready", "othercmd", "message"}
+\* the case of READY property names is not significant (RFC 23: "The case (upper or lower) of names SHALL NOT be significant")
+NameCases == {"canonical", "lower", "upper"}
 PeerTypes == Types \cup {"FOO", "missing"}
 
 \* cell: [loc, ptype, ver, mech, sig, ident, first]
